@@ -66,6 +66,7 @@ def declare(rep):
                       "carrying the query and the given value")
     rep.rule("R01.4", "set methods and adaptors: same rule through their delegation")
     rep.rule("R01.5", "no exported signature returns &mut Option<T>, &mut Node, &mut Vec<Node>, &mut Table")
+    rep.rule("R01.7", "(shared with C11) TrieViewMut::{value_mut, prefix_value_mut, set, remove} act on the view's own node; they refuse at a virtual position")
     rep.rule("R01.6", "no slot leaves the tree while it may still hold a value or valued descendants")
 
 
@@ -312,6 +313,11 @@ def run_config(ctx, rep, cfg, F):
     for p in C.complete(ctx.paths(F, "PrefixMap::remove_children", OPTS)):
         pass
     rep.floor("certificate walks (%s)" % cfg, n, 1500)
+    # writes through mutable views land on the entry the view is positioned at (rule R11.2 of C11, shared)
+    from .. import engine
+    from . import c11
+    c11.run_config(ctx, engine.Renamed(rep, lambda r: "R01.7" if r.startswith("R11") else r), cfg, F,
+                   only_acc={k: v for k, v in c11.ACC.items() if k.endswith("_mut")})
     # R01.5
     import re
     leaks = 0
